@@ -69,7 +69,8 @@ func (g *sgen) sSchema(depth int, top bool) map[string]interface{} {
 			s["multipleOf"] = []interface{}{1, 2, 3}[g.rng.Intn(3)]
 		}
 		if g.p(25) {
-			s["enum"] = []interface{}{1, 2, 7}
+			// members equal to the values in play, members that only wrap or truncate onto them in a narrower Go type
+			s["enum"] = [][]interface{}{{1, 2, 7}, {1, 2, 7}, {257, 65538, 263}, {1.5, 2.5, 7.9}, {4294967297, 100.5}}[g.rng.Intn(5)]
 		}
 		if g.p(25) {
 			if t == "integer" {
